@@ -471,3 +471,21 @@ Proof.
   intros Hm Hd Hn Hlb Hopt Hinf Hc. destruct (mgs_always_solves_parts I status lb n_initial Hm Hd Hn Hlb Hinf Hc) as (tried & k & Hl).
   exists tried, k. split; [exact Hl|]. exact (mgs_returns_minimum_rows I status Hm Hopt Hinf lb n_initial _ tried k Hl).
 Qed.
+
+(* the bound len(numbers) + 1 + extra_cuts is TIGHT: no numbers, total 6, one constraint [2,4]: the bound is 0 + 1 + 1 = 2,
+   {2,4} has 2 elements and no single element meets the constraint *)
+Definition ex_tight_inst : mgs_inst := {| mg_numbers := []; mg_total := 6; mg_int := true; mg_mult := 1; mg_parts := Some [[2; 4]] |}.
+Lemma ex_tight : (Z.of_nat (length (mg_numbers ex_tight_inst)) + 1 + extra_cuts (mg_parts ex_tight_inst) = 2)%Z /\
+  genset_for ex_tight_inst [2; 4] /\ forall g, length g = 1%nat -> ~ genset_for ex_tight_inst g.
+Proof.
+  split; [reflexivity|]. split.
+  - split; [|split].
+    + split; [repeat constructor; lra|]. split; [vm_compute; reflexivity|]. intros a [].
+    + intros _. repeat constructor; [exists 2%Z|exists 4%Z]; reflexivity.
+    + cbn [parts_of mg_parts ex_tight_inst]. constructor; [|constructor]. exists [0; 1]%nat. split; [reflexivity|]. split; [repeat constructor|].
+      intros j v H. do 2 (destruct j as [|j]; [cbn in H; injection H as <-; vm_compute; reflexivity|]). destruct j; discriminate.
+  - intros g Hl (_ & _ & Hp). destruct g as [|x [|? ?]]; try discriminate. cbn [parts_of mg_parts ex_tight_inst] in Hp.
+    inversion Hp as [|? ? (ps & Hlp & Hf & Hs) _]; subst. destruct ps as [|p [|? ?]]; try discriminate.
+    pose proof (Hs 0%nat 2 eq_refl) as H0. pose proof (Hs 1%nat 4 eq_refl) as H1. cbn [part_sum] in H0, H1.
+    destruct p as [|[|p]]; cbn in H0, H1; lra.
+Qed.
